@@ -256,6 +256,38 @@ pub fn run(args: &Args) -> i32 {
             }
         }
     });
+    // ---- through the real Channel: unrelated traffic must not hold a round open --------------
+    // (the strategy-level part above cannot see how long one receive call takes)
+    let wtasks = wire_tasks(tier);
+    let wagg = Mutex::new((mc::ExploreStats::default(), 0u64));
+    mc::par_for(wtasks.len(), mc::workers(), |ti| {
+        let t = &wtasks[ti];
+        let mut local: BTreeMap<String, Finding> = BTreeMap::new();
+        let mut rounds = 0u64;
+        let stats = mc::explore(t.bound, 400, &mut |ch| {
+            let c = std::mem::replace(ch, Chooser::new(&[], 0));
+            let o = wire_run(t, c);
+            *ch = o.world.chooser.clone();
+            rounds += o.world.publishes.len() as u64;
+            for (k, d) in wire_judge(t, &o) {
+                let key = format!("{k}@{}", t.cell.name().split('/').take(2).collect::<Vec<_>>().join("/"));
+                let e = local.entry(key.clone()).or_insert(Finding { key, detail: format!("[{} {} choices={:?}] {d}", t.cell.name(), t.topo, ch.choices), replay: crate::c01::replay_json("C08w", t, &ch.choices), weight: (ch.deviations(), ch.choices.len()), count: 0 });
+                e.count += 1;
+            }
+            local.len() < 20
+        });
+        let mut a = wagg.lock().unwrap();
+        a.0.merge(&stats);
+        a.1 += rounds;
+        drop(a);
+        let mut g = findings.lock().unwrap();
+        for (k, v) in local {
+            g.entry(k).or_insert(v);
+        }
+    });
+    let (wstats, wrounds) = wagg.into_inner().unwrap();
+    rep.set("wire_level_executions", json!(wstats.executions));
+    rep.set("wire_level_rounds_checked", json!(wrounds));
     let (stats, digests, replays, obs, samples) = agg.into_inner().unwrap();
     rep.merge_findings(findings.into_inner().unwrap());
     rep.set("states", json!(stats.states));
@@ -270,7 +302,7 @@ pub fn run(args: &Args) -> i32 {
     rep.observe("publishes_by_target_rule", json!(obs[0]));
     rep.observe("publishes_by_time_limit_only", json!(obs[1]));
     rep.observe("reason_target_found_when_only_max_fired", json!(obs[2]));
-    rep.set("rule", json!("(min,max,grace) in {0,T,2T,3T}^3 with min<=max (40 settings) x target at {1,2,silent}; at every receive the environment picks none / any pending response and a time advance in {T,0,1ns,T-1ns}; quick: all executions with <=3 non-default answers over 2 rounds (<=40 choice points); thorough: the FULL product of the first 10 choice points (5 iterations) + <=4 deviations over 3 rounds. Monitor on the event trace: publish iff (dur>max) or (found and dur>min and now-last>grace), evaluated after every receive; dur <= max+T; reason; next round starts at the publish instant"));
+    rep.set("rule", json!("(min,max,grace) in {0,T,2T,3T}^3 with min<=max (40 settings) x target at {1,2,silent}; at every receive the environment picks none / any pending response and a time advance in {T,0,1ns,T-1ns}; quick: all executions with <=3 non-default answers over 2 rounds (<=40 choice points); thorough: the FULL product of the first 10 choice points (5 iterations) + <=4 deviations over 3 rounds. Monitor on the event trace: publish iff (dur>max) or (found and dur>min and now-last>grace), evaluated after every receive; dur <= max+T; reason; next round starts at the publish instant. Wire level: real Channel, 14 base cells x {silent path, 2-hop path}, unrelated ICMP Echo Requests arriving at the start or at the end of any receive wait, and delays, all executions with <= 3 (4 thorough) deviations: no round lasts longer than max + one read timeout from its first probe"));
     for s in samples {
         rep.sample(s);
     }
@@ -278,8 +310,88 @@ pub fn run(args: &Args) -> i32 {
     rep.finish()
 }
 
+/// Real Channel over the simulated socket: silent / answering paths, unrelated ICMP traffic
+/// (Echo Requests) injected at any receive, <= bound injections.
+fn wire_tasks(tier: Tier) -> Vec<crate::c01::Task> {
+    use crate::drive::{self, TraceParams};
+    let mut v = vec![];
+    for cell in drive::base_cells() {
+        for topo in ["silent-all", "L2"] {
+            let p = TraceParams {
+                first_ttl: 1,
+                max_ttl: 3,
+                rounds: 2,
+                read_timeout: Duration::from_micros(400),
+                min_round: Duration::from_micros(600),
+                max_round: Duration::from_micros(1500),
+                grace: Duration::from_micros(100),
+                tcp_connect_timeout: Duration::from_millis(50),
+                packet_size: if cell.v6 { 96 } else { 84 },
+                ..TraceParams::default()
+            };
+            v.push(crate::c01::Task { cell, topo, params: p, bound: if tier == Tier::Thorough { 4 } else { 3 } });
+        }
+    }
+    v
+}
+
+fn wire_run(t: &crate::c01::Task, ch: Chooser) -> crate::drive::RunOutcome {
+    use crate::drive;
+    let topo = drive::topo_named(&t.cell, t.topo);
+    let menu = crate::simnet::Menu { junk: vec![crate::simnet::JunkKind::Inert], late_junk: true, delay: true, ..crate::simnet::Menu::default() };
+    let net = drive::net_cfg(&t.cell, &t.params, topo, menu);
+    drive::run_trace(&t.cell, &t.params, net, ch)
+}
+
+/// "never held open longer than max-round-duration plus one read timeout": measured from the
+/// instant the round's first probe left to the instant the round was published; every datagram
+/// handed over costs the simulator's delivery time on top.
+fn wire_judge(t: &crate::c01::Task, o: &crate::drive::RunOutcome) -> Vec<(String, String)> {
+    let mut bad = vec![];
+    if let Some(p) = &o.panic {
+        bad.push((p.key(), format!("{} at {}:{}", p.message, p.file, p.line)));
+        return bad;
+    }
+    let w = &o.world;
+    for (r, pb) in w.publishes.iter().enumerate() {
+        let Some(start) = w.sent.iter().filter(|s| s.round == r).map(|s| s.time_ns).min() else { continue };
+        let delivered = w.deliveries.iter().filter(|d| d.round == r).count() as u64;
+        let allowed = (t.params.max_round + t.params.read_timeout).as_nanos() as u64 + (delivered + 2) * 1_000;
+        let dur = pb.time_ns.saturating_sub(start);
+        if dur > allowed {
+            bad.push(("held-open-beyond-max-plus-read-timeout:wire".into(), format!("round {r} lasted {dur} ns from its first probe to its publication; max-round-duration + one read timeout (+ {delivered} deliveries) allows {allowed} ns")));
+        }
+    }
+    bad
+}
+
+fn wire_replay(path: &str) -> i32 {
+    let (t, choices) = crate::c01::load_task(path);
+    let o = wire_run(&t, Chooser::new(&choices, 100_000));
+    println!("replay C08 (wire level): cell={} topo={} choices={choices:?}", t.cell.name(), t.topo);
+    crate::c01::print_trace(&o);
+    let bad = wire_judge(&t, &o);
+    for (k, d) in &bad {
+        println!("DISCREPANCY {k}: {d}");
+    }
+    if bad.is_empty() {
+        println!("replay: property held");
+        0
+    } else {
+        println!("VIOLATION property=C08 replay={path}");
+        1
+    }
+}
+
 pub fn replay(path: &str) -> i32 {
     let s = std::fs::read_to_string(path).expect("MACHINERY: cannot read replay file");
+    {
+        let v: Value = serde_json::from_str(&s).expect("MACHINERY: replay JSON");
+        let r = if v.get("replay").is_some() { &v["replay"] } else { &v };
+        if r["check"].as_str() == Some("C08w") {
+            return wire_replay(path);
+        }
+    }
     let v: Value = serde_json::from_str(&s).expect("MACHINERY: replay JSON");
     let r = if v.get("replay").is_some() { &v["replay"] } else { &v };
     let tj = &r["task"];
